@@ -310,6 +310,20 @@ func (p *pool) onDeathLocked(rq *request, d death) *request {
 	return &again
 }
 
+// planStack extracts from a goroutine dump the goroutine that is inside sarama's balance code.
+func planStack(dump string) string {
+	for _, blk := range strings.Split(dump, "\n\n") {
+		if strings.Contains(blk, "balance_strategy.go") || strings.Contains(blk, "sticky_assignor") {
+			lines := strings.Split(blk, "\n")
+			if len(lines) > 24 {
+				lines = lines[:24]
+			}
+			return strings.Join(lines, "\n")
+		}
+	}
+	return tail(dump, 1500)
+}
+
 func tail(s string, n int) string {
 	if len(s) > n {
 		return "..." + s[len(s)-n:]
@@ -753,7 +767,7 @@ func (s *Search) onDeath(rq *request, d death) {
 			return
 		}
 	}
-	f := findRec{Finding: Finding{Prop: "C08", Sig: in.Strat + "-" + class + " " + shape(in, e), Msg: msg + "\n" + tail(d.Stderr, 1500)},
+	f := findRec{Finding: Finding{Prop: "C08", Sig: in.Strat + "-" + class + " " + shape(in, e), Msg: msg + "\n" + planStack(d.Stderr)},
 		Key: st.Key(true), Ev: d.Info.Ev, Event: e, Outcome: "(none)", Hits: 1, Evals: d.Info.Eval + 1}
 	if d.Info.Raw {
 		f.RawKey = d.Info.Key
@@ -1017,7 +1031,7 @@ func (s *Search) differential(spool []string, depth int, deadline, hardEnd time.
 		"resolved_by_resampling_bfs_side":    resolved,
 		"of_which_needed_the_raw_list_order": pinnedResolved,
 		"unresolved_raw_reproduces_canonical_does_not": unresolved,
-		"rare_not_reproduced_either_way":               rare,
+		"rare_plans_inconclusive":                      rare,
 		"late_states_added_and_expanded":               lateCount,
 		"resampling_evaluations":                       resampleEvals,
 		"wall_s":                                       time.Since(t0).Seconds(),
